@@ -652,6 +652,61 @@ def _dead_default(facts, body, bb):
     return None
 
 
+def length_lower_bounds(body, site_bb):
+    """{len-key: K}: the lower bounds `len(x) >= K` (K constant) that hold on EVERY path from the function entry to site_bb, read off the
+    comparisons of a length with a constant.  An audited entry usually rests on exactly such a guard; tools/p7_genaudit.py records these
+    bounds next to the audit (rules/p7_guards.json) and analyse() refuses the audit when a recorded bound got weaker or disappeared."""
+    out = {}
+    cands = []
+    for (bb, j, op, a, b, dest) in prims.compare_sites(body):
+        ka, kb = expr_key(body, a), expr_key(body, b)
+        for (x, y, o) in ((ka, kb, op), (kb, ka, _MIRROR.get(op, op))):
+            if (x.startswith('len(') or x.startswith('PtrMetadata(')) and _eval_key(y) is not None:
+                c = _eval_key(y)
+                te, fe = prims.bool_local_edges(body, dest)
+                # edge set on which len >= K is known, and K
+                for edges, k in ((fe, c) if o == 'Lt' else (te, c) if o in ('Ge', 'Eq') else (fe, c + 1) if o == 'Le' else (te, c + 1) if o == 'Gt' else (fe, c) if o == 'Ne' else (None, None),):
+                    if edges:
+                        cands.append((re.sub(r'^PtrMetadata\(', 'len(', x), k, edges))
+    for t in body.calls('core::cmp::PartialOrd::lt', 'core::cmp::PartialOrd::le', 'core::cmp::PartialOrd::gt', 'core::cmp::PartialOrd::ge'):
+        op = {'lt': 'Lt', 'le': 'Le', 'gt': 'Gt', 'ge': 'Ge'}[t.d['f'].split('::')[-1]]
+        ka, kb = expr_key(body, t.d['a'][0]), expr_key(body, t.d['a'][1])
+        for (x, y, o) in ((ka, kb, op), (kb, ka, _MIRROR.get(op, op))):
+            if (x.startswith('len(') or x.startswith('PtrMetadata(')) and _eval_key(y) is not None:
+                c = _eval_key(y)
+                tr = prims.track_result(None, body, t)
+                edges, k = (tr.failure, c) if o == 'Lt' else (tr.success, c) if o == 'Ge' else (tr.failure, c + 1) if o == 'Le' else (tr.success, c + 1)
+                if edges:
+                    cands.append((re.sub(r'^PtrMetadata\(', 'len(', x), k, edges))
+    for key, k, edges in cands:
+        if k <= 0:
+            continue
+        if site_bb not in prims.reach(body, (0,), cut_edges=edges):
+            out[key] = max(out.get(key, 0), k)
+    return out
+
+
+_GUARDS = None
+
+
+def load_guards():
+    global _GUARDS
+    if _GUARDS is None:
+        p = os.path.join(os.path.dirname(os.path.abspath(__file__)), 'p7_guards.json')
+        _GUARDS = json.load(open(p)) if os.path.exists(p) else {}
+    return _GUARDS
+
+
+def _guards_hold(body, s, key):
+    """None when every length guard recorded for this audited entry still dominates the site at least as strongly; else the explanation"""
+    rec = load_guards().get(key)
+    if not rec:
+        return None
+    now = length_lower_bounds(body, s.bb)
+    weak = [f'{k} >= {v} (now: {now.get(k, "no such guard")})' for k, v in sorted(rec.items()) if now.get(k, 0) < v]
+    return ', '.join(weak) if weak else None
+
+
 def analyse(R, rule, bodies, audited, prop):
     """Emit one obligation per function: all its panic-capable sites discharged."""
     total = 0
@@ -670,6 +725,14 @@ def analyse(R, rule, bodies, audited, prop):
             total += 1
             why = discharge(R.facts, s)
             if why is None and s.key() in audited:
+                gone = _guards_hold(b, s, s.key())
+                if gone:
+                    R.fail(rule, b.fn, f'the length guard an audited panic-capable site rests on is still in force: {s.kind} {s.detail}',
+                           f'{s.kind} on [{s.detail}] at {s.where()} was audited as unreachable with hostile input under the dominating guard(s) {gone}; '
+                           'the guard is weaker than the audit assumed or gone', s.where(), key=f'{rule}|{s.key()}|guard')
+                    used_audit.add(s.key())
+                    reasons[s.key()] = 'audited (guard weakened - reported)'
+                    continue
                 why = 'audited: ' + audited[s.key()]
                 used_audit.add(s.key())
             if why is None:
